@@ -265,8 +265,23 @@ def collect(run, tier, prs, fq, prefix, cex=None):
             run.pending_failures.append((ob, cur['status'], cur.get('detail', ''), cur.get('model')))
 
 
+# (namespace, type) pairs the format defines (firehose_types_private.h): the domain of "every namespace/type the format defines"
+FIREHOSE_TYPES = {2: (1, 2, 3), 3: (0, 1, 2, 0x10, 0x11), 4: (0, 1, 2, 0x10, 0x11), 5: (1, 2, 3, 4),
+                  6: tuple(k | sc for k in (0, 1, 2) for sc in (0, 0x40, 0x80, 0xc0))}
+FIREHOSE_ANY_TYPE = (0, 7)          # unknown, loss: the type byte is not interpreted
+
+
+class TraceIdPolicy(Policy):
+    """the namespace and type enums are not taken on trust: their construction must succeed on every pair the format defines"""
+
+    def raise_site(self, interp, kind, cond, exc_name, node):
+        if kind.startswith('enum-value') and ('Type' in kind or 'Namespace' in kind):
+            return 'fork'
+        return Policy.raise_site(self, interp, kind, cond, exc_name, node)
+
+
 def verify_trace_identifier(run, tier):
-    sess = Session(policy=Policy())
+    sess = Session(policy=TraceIdPolicy())
     it = sess.it
     fq = MOD + ':OsLogEvent.parse_trace_identifier'
     prefix = 'C16/parse_trace_identifier'
@@ -281,6 +296,9 @@ def verify_trace_identifier(run, tier):
         w = z3.Sum([bits[i] * (1 << i) for i in range(64)])
         ctx.facts.append(z3.Int('ti') == w)
         fld = lambda lo, n: z3.Sum([bits[lo + i] * (1 << i) for i in range(n)])
+        defined = [z3.And(fld(0, 8) == ns_, z3.Or([fld(8, 8) == t_ for t_ in tys])) for ns_, tys in FIREHOSE_TYPES.items()]
+        defined += [fld(0, 8) == ns_ for ns_ in FIREHOSE_ANY_TYPE]
+        ctx.assume(z3.Or(defined), name='namespace/type pair defined by the format')
         res = it.call(it.lib.getattr_(it, cls, 'parse_trace_identifier'), [SInt(w)], {})
         f = res.fields
         ns, ty, code = fld(0, 8), fld(8, 8), fld(32, 32)
